@@ -124,7 +124,7 @@ def findSearches (c : Ctx) (search : Str) : Except Err (List Sid) :=
   match c.sidOfString search with
   | .error e => .error e
   | .ok sid =>
-    if sid.typed && !c.isSearch sid && !c.isAliasSearch sid then .ok [sid]
+    if sid.typed && !c.isSearch sid && !c.isAliasSearch sid && !Str.hasChar '?' sid.string then .ok [sid]
     else c.unfoldSearch search false false
 
 /-- `FindInList(...).find(search, as_sid=False)` -/
